@@ -395,7 +395,7 @@ func (g *gen) genSequence(rules []RuleSpec, plans []*plan) (*Case, error) {
 
 func runSequences(r *mon.Run, g *gen) {
 	rules := seqRules()
-	e, err := buildDynamic(rules)
+	e, err := buildDynamic(rules, "")
 	if err != nil {
 		r.Inconclusive("harness: " + err.Error())
 		return
